@@ -3,7 +3,8 @@
    Output: result  warn(1 = maximum-iteration return)  number of evaluations  the abscissae in call order;  or EXIT
    (op both: the same for Find_Root(a,b) and then for Find_Root(b,a))
    seq k  <a b acc fam np p1..pnp fexpr> x k : k requests served one after the other by one process; output: the k answers
-   in order, or EXIT when one of the calls ends the process *)
+   in order, or EXIT when one of the calls ends the process
+   sgn x / sgn2 x y : Sign(x) (int) / Sign(x,y) (double), the terms sign1 / sign2 of Num.v the model is written with *)
 open Common
 let skip_family r = let _ = word r in let n = integer r in for _ = 1 to n do ignore (num r) done
 let handler r =
@@ -33,5 +34,7 @@ let handler r =
       else List.iter (fun (o, tr) -> match o with
                        | Ok (x, h) -> put_f x; put_b (h = HMaxIter); put_fl tr
                        | _ -> ()) outs
+  | "sgn" -> let x = num r in put_i (int_of_z (sign1 fops x))
+  | "sgn2" -> let x = num r in let y = num r in put_f (sign2 fops x y)
   | o -> put_w ("MODELERR unknown_op_" ^ o)
 let () = run handler
